@@ -715,7 +715,7 @@ pub fn prop_c17() -> Prop {
         id: "C17",
         scenarios: vec![
             Scenario { name: "salting", f: c17_salting, thorough_only: false,
-                bounds: "every shape of <=5 (quick) / <=7 (thorough) elements + 21 larger shapes + 5 envelopes of 100..5000 bytes whose size sits in the assertions x {add_salt_using, add_salt_with_len_using(0,1,7,8,9,64), add_salt_in_range_using(9 ranges, 3 of them empty (start > end)), add_salt_instance, add_salt, add_salt_with_len} x RNG whose range draws are pinned to 0 / u64::MAX / seeded x every digest order; length checked against the documented range computed from the real serialized size",
+                bounds: "every shape of <=5 (quick) / <=7 (thorough) elements + 30 hand-written shapes + 5 envelopes of 100..5000 bytes whose size sits in the assertions x {add_salt_using, add_salt_with_len_using(0,1,7,8,9,64), add_salt_in_range_using(9 ranges, 3 of them empty (start > end)), add_salt_instance, add_salt, add_salt_with_len} x RNG whose range draws are pinned to 0 / u64::MAX / seeded x every digest order; length checked against the documented range computed from the real serialized size",
                 api: &["add_salt", "add_salt_using", "add_salt_with_len", "add_salt_with_len_using", "add_salt_in_range_using", "add_salt_instance"] },
             Scenario { name: "salted_assertions", f: c17_salted_assertions, thorough_only: false,
                 bounds: "7 starting envelopes (bare, with other assertions, already holding the same fact plainly or decorated) x salted / unsalted x {add_assertion_salted, add_assertion_envelope_salted, add_assertions_salted} x every digest order",
